@@ -44,7 +44,7 @@ def main(tier, seed, prop=PROP):
                       "every octet 0-300 x position x 1-4 digits, every IPv6 shape (0-8 groups before/after '::', widths, case, 9 "
                       "tails) bare and IPv6:-tagged, 13 tags, bytes before/after/inside the brackets, all strings up to length %d "
                       "over %d literal tokens after '[' , '[IPv6:' and two partial prefixes, corpus literal mutations; 4 modes x tld "
-                      "on/off x high/low-level API; distinct = distinct domains" % (k, len(toks)),
+                      "on/off x high/low-level API; literals of 2^31 bytes (thorough: to 2^32) in an -O2 build; distinct = distinct domains" % (k, len(toks)),
                       {"builds": cx.builds_info()})
 
 
